@@ -1,1 +1,2 @@
 import DdsProofs.Props.C05
+import DdsProofs.Props.C13
